@@ -573,6 +573,33 @@ def run(tier: str) -> int:
                         rep.error(f"vacuity: the failing column never fired (history {hi})")
                     if not added or "Step" not in added[0] or torn or not on_disk.endswith("\n"):
                         rep.violation(f"log-not-well-formed:{tag}", f"log (mode '{mode}'): the lines added by this run are not a header followed by complete rows: {('first line ' + repr(added[0][:60])) if added and 'Step' not in added[0] else ''} {('malformed row ' + repr(torn[0][:120])) if torn else ''}", {"mode": mode, "added_head": added[:3], "torn": torn[:2]})
+        # ---- the user calls the restart observer himself (a checkpoint right after the moves of a step, when the atoms
+        # have changed but the step counter has not advanced yet): after EVERY observer call the file describes the latest
+        # state -----------------------------------------------------------------------------------------------------------
+        for mode in ("a", "w"):
+            d = os.path.join(tmp, f"manual_{mode}")
+            os.makedirs(d)
+            mc, files = build(d, mode, rep.seed % 1000 + 401)
+            try:
+                nchk = 0
+                for st in mc.irun(steps):
+                    for _ in st:
+                        pass
+                    mc.default_restart()  # the user's checkpoint
+                    files["restart"].real.flush()
+                    got = doc_state(open(os.path.join(d, "restart.out")).read())
+                    nchk += 1
+                    rep.count(("manual-checkpoint", mode, nchk), nontrivial=True)
+                    if got is None or got[1] != len(mc.atoms):
+                        rep.violation(f"after-call:restart:manual-checkpoint-stale:{mode}", f"a restart-observer call made by the user after the moves of step {int(mc.step_count) + 1} leaves a file describing {got[1] if got else 'nothing loadable'} atoms; the simulation has {len(mc.atoms)} (mode '{mode}')", {"mode": mode, "checkpoint": nchk})
+                        break
+            except Exception as ex:  # noqa: BLE001
+                rep.violation(f"raise:manual-checkpoint:{type(ex).__name__}", f"a run with user checkpoints raised {ex!r}", {"mode": mode})
+            finally:
+                try:
+                    mc.close()
+                except Exception:  # noqa: BLE001
+                    pass
         # ---- (A) TLC on the recorded op logs --------------------------------------------------------
         tf = os.path.join(tmp, "ops.json")
         json.dump(recs, open(tf, "w"))
